@@ -221,6 +221,32 @@ def run_shard(spec, tier, seed):
                 continue
             if vecbits(a) != vecbits(b) or type(a) is not type(b):
                 V(f"setter-differs synonym={syn}", via_synonym=repr(a), via_geometric=repr(b))
+            # twin histories: the value assigned is the coordinate's *current* value (a "no-op" assignment still makes that
+            # coordinate the stored one), zero, or the same value twice; afterwards another coordinate is assigned through
+            # its own synonym / geometric name.  After every step both twins hold the same bits in the same system
+            others = [(s2, b2) for s2, b2 in SETTERS.items() if MINDIM[b2] <= dim and b2 != base]
+            for vname, pick in (("current-value", lambda o: getattr(o, base)), ("zero", lambda o: 0.0), ("twice", lambda o: 1.75)):
+                a, b = B.mk_obj(system, l.f64()[0], True), B.mk_obj(system, l.f64()[0], True)
+                steps = [(syn, base, pick)] + ([(syn, base, pick)] if vname == "twice" else [])
+                if others:
+                    s2, b2 = others[(len(syn) + len(vname)) % len(others)]
+                    steps.append((s2, b2, lambda o: 2.5))
+                    s3, b3 = others[(len(syn) + len(vname) + 3) % len(others)]
+                    steps.append((s3, b3, lambda o, b3=b3: getattr(o, b3)))
+                res.evaluations += 1
+                try:
+                    for si, (sy, ba, pk) in enumerate(steps):
+                        val_a, val_b = pk(a), pk(b)
+                        setattr(a, sy, val_a)
+                        setattr(b, ba, val_b)
+                        if vecbits(a) != vecbits(b) or type(a) is not type(b):
+                            V(f"setter-history-differs synonym={sy} assigned={vname if si == 0 else 'later-step'}",
+                              step=si, steps=[f"{x[0]}|{x[1]}" for x in steps], via_synonym=repr(a), via_geometric=repr(b))
+                            break
+                except (ZeroDivisionError, ValueError):
+                    res.count("setter_history_singular")
+                except Exception as e:
+                    V(f"setter-raises synonym={syn}", exc=f"{type(e).__name__}: {e}"[:200], assigned=vname)
             # sympy setter
         sv1 = symcls(**dict(zip(R.field_names(system), syms)))
         sv2 = symcls(**dict(zip(R.field_names(system), syms)))
